@@ -201,22 +201,37 @@ Fixpoint refw_run (interval : Z) (s : refw) (ops : list xop) : list obs :=
   | o :: ops' => let (s', r) := refw_step interval s o in r :: refw_run interval s' ops'
   end.
 
-(* expiries of at least one wheel interval (below that the wheel clamps to one interval;
-   [refw_put] says so and [prop_ok] holds the implementation to it for every expiry) *)
-Definition xop_in_scope (interval : Z) (o : xop) : bool :=
-  match o with
-  | XSet _ _ d => interval <=? d
-  | XTake _ _ d => interval <=? d
-  | _ => true
-  end.
-
 (* ---------- cache + wheel with the non-perturbing observations ---------- *)
 Inductive xxop := XX (o : xop) | XHeld | XSize.
+
+(* A non-positive expiry is refused by the wheel (SetTimer returns ErrArgument, which
+   SetWithExpire ignores): the value is stored, evicted keys lose their timers, and the key's
+   own timer - if it has one - stays as it is.  ModelW.cw_set models positive expiries. *)
+Definition cw_set_notimer (s : cachew) (k v : Z) : cachew :=
+  let (c1, ev) := c_set (cwc s) k v in mkCW c1 (tw_removes (cww s) ev) (cwmv s).
+
+Definition cwx_step (s : cachew) (o : xop) : cachew * obs :=
+  match o with
+  | XSet k v d =>
+    if d <=? 0 then (cw_set_notimer s k v, OUnit) else let '(s', r, _) := cw_step s o in (s', r)
+  | XTake k f d =>
+    if d <=? 0 then
+      match c_doget (cwc s) k with
+      | (c', Some v) => (mkCW c' (cww s) (cwmv s), OTake (Some v) false)
+      | (c', None) =>
+        match f with
+        | Some v => (cw_set_notimer (mkCW c' (cww s) (cwmv s)) k v, OTake (Some v) true)
+        | None => (mkCW c' (cww s) (cwmv s), OTake None true)
+        end
+      end
+    else let '(s', r, _) := cw_step s o in (s', r)
+  | _ => let '(s', r, _) := cw_step s o in (s', r)
+  end.
 
 Fixpoint cwx_run (s : cachew) (ops : list xxop) : list obs :=
   match ops with
   | [] => []
-  | XX o :: ops' => let '(s', r, _) := cw_step s o in r :: cwx_run s' ops'
+  | XX o :: ops' => let (s', r) := cwx_step s o in r :: cwx_run s' ops'
   | XHeld :: ops' => OList (map fst (cdata (cwc s))) :: cwx_run s ops'
   | XSize :: ops' => ONum (alen (cdata (cwc s))) :: cwx_run s ops'
   end.
@@ -227,6 +242,14 @@ Fixpoint refwx_run (interval : Z) (s : refw) (ops : list xxop) : list obs :=
   | XX o :: ops' => let (s', r) := refw_step interval s o in r :: refwx_run interval s' ops'
   | XHeld :: ops' => OList (map fst (sents (rws s))) :: refwx_run interval s ops'
   | XSize :: ops' => ONum (Z.of_nat (length (sents (rws s)))) :: refwx_run interval s ops'
+  end.
+
+(* the property speaks of entries that expire: every expiry of the history is positive *)
+Definition xx_in_scope (o : xxop) : bool :=
+  match o with
+  | XX (XSet _ _ d) => 0 <? d
+  | XX (XTake _ _ d) => 0 <? d
+  | _ => true
   end.
 
 Fixpoint xsizes_ok (limit : Z) (seen : list obs) : bool :=
@@ -339,7 +362,7 @@ Definition prop_ok (c : case) : bool :=
     same true (sc_run (s_new limit) ops) seen &&
     (if 0 <? limit then probe_ok limit ops seen && sizes_ok limit ops (filter nonunit seen) else true)
   | KCacheW limit slots interval mv ops seen =>
-    if (1 <=? slots) && (1 <=? interval) then
+    if (1 <=? slots) && (1 <=? interval) && forallb xx_in_scope ops then
       same true (refwx_run interval (mkRefW (s_new limit) []) ops) seen &&
       (if 0 <? limit then xsizes_ok limit seen else true)
     else true
